@@ -19,7 +19,7 @@ EXTENDS Naturals, Integers, Sequences, FiniteSets, TLC
 U == 163840
 AU == 13004800
 INF == 1000000
-MAXEV == 24          \* cap on the events taken from an endless pattern
+MAXEV == 120         \* cap on the events taken from an endless pattern (generators keep endless patterns under a Pdur that needs fewer)
 
 V(n) == [n |-> n, s |-> "", r |-> FALSE]
 VS(s) == [n |-> 0, s |-> s, r |-> FALSE]
@@ -197,7 +197,7 @@ EvSeq(E, inev, base) ==
                             open == OpenMonos(cut) IN
                         IF open = {} THEN cut ELSE Append(cut, MonoOff(cut[CHOOSE i \in open : TRUE]))
       [] E.t = "par" -> LET cs == [i \in 1..Len(E.l) |-> EvSeq(E.l[i], inev, base + 10 * i)] IN
-                        ParLoop(cs, [i \in 1..Len(cs) |-> <<0, i, i>>], [i \in 1..Len(cs) |-> 1], 0, Len(cs) + 1, <<>>, 200)
+                        ParLoop(cs, [i \in 1..Len(cs) |-> <<0, i, i>>], [i \in 1..Len(cs) |-> 1], 0, Len(cs) + 1, <<>>, 600)
 
 \* the player: event k is played at start + the sum of the deltas before it; rests send nothing
 RECURSIVE Player(_, _, _, _, _)
